@@ -140,6 +140,17 @@ def textRichMeasure (cw : Char → Nat) (t : T) : Measurement :=
   if t.plain.all pyIsSpace then ⟨cellLen cw t.plain, cellLen cw t.plain⟩
   else ⟨maxCellLen cw (splitOnP pyIsSpace t.plain []), maxCellLen cw (splitOnP isLineBreak t.plain [])⟩
 
+/-- `Text.__rich_measure__` behind the code-variant flag of finding `text-measure-splitlines` (C09): `true` = rich 9.10.0 as found —
+the widest of `text.splitlines()`, which also breaks at FS / GS / RS / NEL / LS / PS although `Text.wrap` divides at `"\n"` only, so a
+text with one of those is wrapped at its own measured maximum; `false` = since the fix: the widest of `text.split("\n")`.
+(`textRichMeasure`, which the tree functions `measure` / `render` use, is the as-found one: the two agree on every text whose only
+`str.splitlines` separator is the line feed — `textRichMeasureNl_eq`; the harness generates the other separators for single texts
+only, request `layout_text_spec` with the flag in front.) -/
+def textRichMeasureV (splitlines : Bool) (cw : Char → Nat) (t : T) : Measurement :=
+  if splitlines then textRichMeasure cw t
+  else if t.plain.all pyIsSpace then ⟨cellLen cw t.plain, cellLen cw t.plain⟩
+  else ⟨maxCellLen cw (splitOnP pyIsSpace t.plain []), maxCellLen cw (splitOnP (fun c => c == '\n') t.plain [])⟩
+
 def textMeasure (cw : Char → Nat) (t : T) (w : Nat) : Measurement :=
   Measurement.getPost (w : Int) (some (textRichMeasure cw t))
 
